@@ -52,6 +52,11 @@ where
         }
         guard.disarm();
 
+        // a chunk that could not be filled means that the wrapped iterator has returned None
+        if i < self.chunk_size() {
+            iter.mark_completed();
+        }
+
         let older_count = iter.progress_yielded_counter(self.chunk_size());
         assert_eq!(older_count, begin_idx);
 
